@@ -155,6 +155,57 @@ def _private_copy(exe, workdir, name):
     return dst
 
 
+def setters_include():
+    """C++ table of the public setters of GeneratorProfile, one per data member of GeneratorProfileImpl (regenerated from
+    VERIF_REPO's generatorprofile.cpp by tools/translate_profile.py) -> (path of the include file, member names)"""
+    tools = os.path.join(vf.ROOT, "tools")
+    if tools not in sys.path:
+        sys.path.insert(0, tools)
+    import translate_profile as T
+    members = T.parse_struct_members(vf.REPO)
+    lines = []
+    for name, kind in members:
+        setter, args = T.setter_of(name)
+        if kind == "bool":
+            getter = name[1].lower() + name[2:]
+            call = "p->%s(!p->%s());" % (setter, getter)
+        else:
+            call = "p->%s(%sMARK);" % (setter, "".join(a + ", " for a in args))
+        lines.append('    {"%s", [](const libcellml::GeneratorProfilePtr &p) { %s }},\n' % (name, call))
+    text = "".join(lines)
+    d = os.path.join(vf.WORK, "C17")
+    os.makedirs(d, exist_ok=True)
+    path = os.path.join(d, "profile_setters_%s.inc" % hashlib.sha256(text.encode()).hexdigest()[:12])
+    if not os.path.exists(path):
+        with open(path + ".tmp", "w") as f:
+            f.write(text)
+        os.rename(path + ".tmp", path)
+    return path, [n for n, _ in members]
+
+
+def build_driver(build):
+    inc, members = setters_include()
+    exe = vf.compile_driver(build, os.path.join(vf.ROOT, "harness/c17_driver.cpp"), extra_flags=['-DC17_SETTERS_INC="%s"' % inc])
+    return exe, members
+
+
+PIECEWISE_MEMBERS = ("mPiecewiseIfString", "mPiecewiseElseString")
+SETPROFILE_FINDING = "C17-setprofile-keeps-piecewise-strings"
+
+
+def random_history(rng, members):
+    n = len(members)
+    k = rng.choice([1, 1, 2, 3, 5, 10, 40, n])
+    idx = sorted(rng.sample(range(n), min(k, n)))
+    return "%s:%s" % (rng.choice(["C", "PY"]), ",".join(str(i) for i in idx))
+
+
+def history_members(history, members):
+    if not history or history == "-":
+        return []
+    return [members[int(i)] for i in history.split(":", 1)[1].split(",") if i != ""]
+
+
 def run_sharded(cmd_prefix, lines, workdir, tag, nsh=None):
     """run `cmd_prefix + [file]` over the lines in nsh processes; one output line per input line"""
     nsh = max(1, min(nsh or vf.NCPU, len(lines)))
@@ -234,7 +285,8 @@ def parse_model_line(line):
            "voi": {"C": rows(d["voiC"]), "Py": rows(d["voiPy"])}, "states": {"C": rows(d["statesC"]), "Py": rows(d["statesPy"])},
            "vars": {"C": rows(d["varsC"]), "Py": rows(d["varsPy"])},
            "iface": {"C": unhx(d["ifaceC"]), "Py": unhx(d["ifacePy"])},
-           "impl": {"C": pieces(d["implC"]), "Py": pieces(d["implPy"])}}
+           "impl": {"C": pieces(d["implC"]), "Py": pieces(d["implPy"])},
+           "empty_body": {"C": unhx(d.get("emptyC", "")), "Py": unhx(d.get("emptyPy", ""))}}
     return out
 
 
@@ -541,6 +593,18 @@ def load_py(d, py):
         return {"loaded": False, "load_error": "runner rc=%s: %s" % (rc, err[-500:])}
 
 
+FINDROOT_FINDING = "C17-findroot-in-compute-computed-constants"
+
+
+def findroot_in_constants(text, lang):
+    """matcher of C17-findroot-in-compute-computed-constants on the generated text"""
+    if lang == "C":
+        m = re.search(r"^void computeComputedConstants\(double \*variables\)\n\{\n(.*?)^\}$", text, flags=re.M | re.S)
+        return bool(m and re.search(r"findRoot\d+\(voi, states, rates, variables\)", m.group(1)))
+    m = re.search(r"^def compute_computed_constants\(variables\):\n(.*?)(?=^\S|\Z)", text, flags=re.M | re.S)
+    return bool(m and re.search(r"find_root_\d+\(voi, states, rates, variables\)", m.group(1)))
+
+
 # --------------------------------------------------------------------------- judging one valid model
 def c03_known_shape(text, lang):
     """narrow matcher for the C03 findings that make the generated text not compile / load (they are C03's, not C17's)"""
@@ -594,6 +658,12 @@ def judge(model, info, pred, files, run_c, run_py):
     if not pred["wf"]:
         P.append(("tie", "wf_indices is false on the accessor dump"))
 
+    # ---- profile objects with a history must generate what a fresh built-in profile generates
+    hist = info.get("hist")
+    if hist is not None and not all(hist.values()):
+        P.append(("history", "Generator with a profile object that was customised and then reset by setProfile(): the text differs "
+                             "from the one of a fresh profile for %s (history %s)" % (sorted(k for k, v in hist.items() if not v), model.get("history"))))
+
     # ---- tie: text
     if normalise_text(h) != pred["iface"]["C"]:
         a, b = normalise_text(h), pred["iface"]["C"]
@@ -606,6 +676,9 @@ def judge(model, info, pred, files, run_c, run_py):
         prob, bodies[lang] = match_pieces(normalise_text(text), pred["impl"][lang])
         if prob:
             P.append(("tie", "%s implementation: %s" % (lang, prob)))
+    # generateMethodBodyCode: an empty body is replaced by the profile's empty-method string ("pass" in Python)
+    if any(b == "" for b in bodies.get("Py", [])):
+        P.append(("tie", "Python implementation: a method frame is followed by no body (the model fills an empty body with %r)" % pred.get("empty_body", {}).get("Py")))
 
     # ---- oracle: structure of the C code
     pc = parse_c(h, c)
@@ -766,7 +839,11 @@ def judge(model, info, pred, files, run_c, run_py):
                     P.append(("known:" + DIAG_FINDINGS[kind], "cc %s -c on the generated C of model %s: %s" % (" ".join(CFLAGS), model["name"], first.strip()[:200])))
                 else:
                     P.append(("oracle", "cc reports -W%s but no equation has the shape of %s: %s" % (kind, DIAG_FINDINGS[kind], first.strip()[:300])))
-        if not compiled:
+        if not compiled and ode and findroot_in_constants(c, "C") and all(
+                re.search(r"‘(voi|states|rates)’ undeclared", l) for l in run_c["diagnostics"].split("\n") if "error:" in l):
+            P.append(("known:" + FINDROOT_FINDING, "C implementation of model %s: computeComputedConstants(double *variables) calls findRoot<i>(voi, states, rates, variables): %s" % (
+                model["name"], next((l.strip() for l in run_c["diagnostics"].split("\n") if "error:" in l), "")[:160])))
+        elif not compiled:
             if c03_known_shape(c, "C"):
                 P.append(("c03", "C text does not compile because of a C03 shape"))
             else:
@@ -826,7 +903,9 @@ def judge(model, info, pred, files, run_c, run_py):
                     if not want_absent:
                         P.append(("oracle", "Python module: %s is not defined" % fn))
                 elif res not in ("ok", "numeric"):
-                    if c03_known_shape(py, "Py"):
+                    if fn == "compute_computed_constants" and ode and res.startswith("NameError: name 'voi'") and findroot_in_constants(py, "Py"):
+                        P.append(("known:" + FINDROOT_FINDING, "Python implementation of model %s: compute_computed_constants(variables) calls find_root_<i>(voi, states, rates, variables): %s" % (model["name"], res)))
+                    elif c03_known_shape(py, "Py"):
                         P.append(("c03", "Python text fails because of a C03 shape"))
                     else:
                         P.append(("oracle", "Python module: calling %s failed: %s" % (fn, res)))
@@ -849,7 +928,7 @@ def process(drv, mdl, models, workdir, tag, compile_run=True):
         with open(p, "w") as f:
             f.write(m["xml"])
         m["path"] = p
-        lines.append(p + "\t" + (",".join(m.get("externals") or []) or "-"))
+        lines.append(p + "\t" + (",".join(m.get("externals") or []) or "-") + "\t" + (m.get("history") or "-"))
     outs = run_sharded([drv, "gen"], lines, workdir, tag + "_drv")
     results, cases, case_of = [], [], {}
     for m, line in zip(models, outs):
@@ -916,6 +995,7 @@ def cleanup(r):
 def replay_content(r, problems):
     info = r["info"] or {}
     return {"mode": "model", "name": r["model"]["name"], "externals": r["model"].get("externals") or [], "meta": r["model"].get("meta"),
+            "history": r["model"].get("history"),
             "problems": [t for _, t in problems][:12], "kinds": sorted({k for k, _ in problems}),
             "analyser": {k: info.get(k) for k in ("type", "ext", "stateCount", "variableCount", "voi", "states", "variables", "need")},
             "driver_line": r["line"][:3000], "model_line_error": r.get("pred_line"),
@@ -944,7 +1024,8 @@ def run(ctx):
     workdir = os.path.join(ctx.workdir, "models")
     shutil.rmtree(workdir, ignore_errors=True)
     os.makedirs(workdir, exist_ok=True)
-    drv = _private_copy(vf.compile_driver(build, os.path.join(vf.ROOT, "harness/c17_driver.cpp")), workdir, "bin_c17_driver")
+    drv_exe, members = build_driver(build)
+    drv = _private_copy(drv_exe, workdir, "bin_c17_driver")
     mdl = _private_copy(vf.ocaml_driver("emit"), workdir, "bin_emit_model")
     genmdl = _private_copy(vf.ocaml_driver("gen"), workdir, "bin_gen_model")
 
@@ -963,6 +1044,33 @@ def run(ctx):
                                                                                         "components": g["meta"].get("components"), "nla": g["meta"].get("nla")}})
     models += M.extra_models(ctx.rng, n_extra)
     models += M.buffer_models() + M.nla_elimination_models()
+    # the externals dimension: for the four plain base models and some random models, analysed once WITHOUT externals to
+    # learn the classes, every class x {one, all} marked external, and everything marked external
+    bases = M.externals_base_models()
+    n_rand_bases = 6 if quick else 40
+    for i, g in enumerate([g for g in gen if "error" not in g][:n_rand_bases]):
+        bases.append({"name": "xrand%03d" % i, "xml": g["xml"], "externals": [], "meta": {"family": "externals", "kind": "?", "cls": "-", "qty": "none"}})
+    phase1 = process(drv, mdl, [dict(b) for b in bases], os.path.join(workdir, "phase1"), "xb", compile_run=False)
+    for b, r1 in zip(bases, phase1):
+        models.append(b)
+        if r1["status"] == "ok":
+            b["meta"]["kind"] = r1["info"]["type"]
+            models += M.externals_matrix(b, r1["info"])
+    shutil.rmtree(os.path.join(workdir, "phase1"), ignore_errors=True)
+    # profile objects with a history (customised through the setters, then setProfile): a third of the models, and every
+    # setter at once on the controls
+    for m in models:
+        if ctx.rng.random() < 0.34:
+            m["history"] = random_history(ctx.rng, members)
+    allset = ",".join(str(i) for i in range(len(members)))
+    for tag in ("C", "PY"):
+        for cm in M.control_models()[:2]:
+            models.append(dict(cm, name="%s__history_all_%s" % (cm["name"], tag), history="%s:%s" % (tag, allset),
+                               meta=dict(cm["meta"], family="history")))
+        for i in (members.index(x) for x in PIECEWISE_MEMBERS if x in members):
+            cm = M.control_models()[0]
+            models.append(dict(cm, name="%s__history_%s_%s" % (cm["name"], members[i], tag), history="%s:%d" % (tag, i),
+                               meta=dict(cm["meta"], family="history")))
     expected_findings = {}
     for fm in M.finding_models():
         expected_findings[fm["name"]] = fm["meta"]["expect"]
@@ -971,9 +1079,11 @@ def run(ctx):
     hist = {"models": len(models), "ok": 0, "rejected": 0, "crashed": 0, "types": {}, "externals": {"with": 0, "without": 0},
             "combos_ode_ext": {}, "helpers_needed": {}, "placements": {}, "kinds": {}, "info_entries": {}, "nla_systems": 0,
             "flags_kept_for_externalised_equations": 0, "c03_shapes_skipped": 0, "known_findings": {}, "families": {}, "buffer_matrix": {}, "nla_multi_system_models": 0,
-            "nla_index_gap_models": 0, "nla_elimination_indices": {}, "violations": 0, "generator_failures": len(gen_failed),
+            "nla_index_gap_models": 0, "nla_elimination_indices": {}, "externals_matrix": {}, "ode_typed_models_without_states": 0,
+            "profile_histories": {"models": 0, "setters_applied": 0, "distinct_setters": 0, "initial_tag": {}, "all_setters": 0}, "violations": 0, "generator_failures": len(gen_failed),
             "rejected_samples": []}
     distinct, nontrivial = set(), set()
+    used_setters = set()
     nviol = 0
     evaluations = 0
     sample = None
@@ -987,6 +1097,11 @@ def run(ctx):
             if nviol <= 5:
                 ctx.violation("C17 model %s: the pipeline driver reported %s" % (m["name"], r["line"][:60]), "model_%s.json" % m["name"], replay_content(r, [("oracle", r["line"][:200])]))
             continue
+        if fam == "externals" and r["status"] in ("ok", "rejected"):
+            cell = "%s/%s/%s" % (m["meta"]["kind"], m["meta"]["cls"], m["meta"]["qty"])
+            res_ = r["info"]["type"] if r["status"] == "ok" else "refused:" + r["info"]["type"]
+            hist["externals_matrix"].setdefault(cell, {})
+            hist["externals_matrix"][cell][res_] = hist["externals_matrix"][cell].get(res_, 0) + 1
         if r["status"] == "rejected":
             # a model of the valid families that the analyser refuses (externals can do that): both strings must be empty
             hist["rejected"] += 1
@@ -1029,6 +1144,16 @@ def run(ctx):
             if len(classes) == 1:
                 cell = "%s/%s/%s" % (info["type"], field, classes.pop())
                 hist["buffer_matrix"][cell] = hist["buffer_matrix"].get(cell, 0) + 1
+        if ode and not info["states"]:
+            hist["ode_typed_models_without_states"] += 1
+        if m.get("history"):
+            hm = history_members(m["history"], members)
+            ph = hist["profile_histories"]
+            ph["models"] += 1
+            ph["setters_applied"] += len(hm)
+            used_setters.update(hm)
+            ph["initial_tag"][m["history"].split(":")[0]] = ph["initial_tag"].get(m["history"].split(":")[0], 0) + 1
+            ph["all_setters"] += len(hm) == len(members)
         nla_idx = sorted({e["nla"] for e in info["equations"] if e["type"] == "nla"})
         if len(nla_idx) >= 2:
             hist["nla_multi_system_models"] += 1
@@ -1037,7 +1162,7 @@ def run(ctx):
         if fam == "nla_elimination":
             key = "%s:%s" % (m["meta"]["kind"], ",".join(str(i) for i in nla_idx) or "-")
             hist["nla_elimination_indices"][key] = hist["nla_elimination_indices"].get(key, 0) + 1
-        hid = hashlib.sha256((m["xml"] + "|" + ",".join(m.get("externals") or [])).encode()).hexdigest()
+        hid = hashlib.sha256((m["xml"] + "|" + ",".join(m.get("externals") or []) + "|" + (m.get("history") or "")).encode()).hexdigest()
         distinct.add(hid)
         if need or n_entries >= 2:
             nontrivial.add(hid)
@@ -1051,6 +1176,12 @@ def run(ctx):
         for k, t in probs:
             if k == "c03":
                 continue
+            if k == "history":
+                # the one way a history may show: the two members loadProfile never assigns, through the 'modified profile' marker only
+                hm = history_members(m.get("history"), members)
+                if any(x in hm for x in PIECEWISE_MEMBERS) and not any(k2 == "tie" for k2, _ in probs):
+                    k = "known:" + SETPROFILE_FINDING
+                    t = "model %s, history %s...: %s" % (m["name"], m["history"][:40], t[:200])
             if k.startswith("known:"):
                 fid = k[len("known:"):]
                 if ctx.known_finding(fid, t):
@@ -1068,6 +1199,8 @@ def run(ctx):
         else:
             cleanup(r)
     hist["violations"] = nviol
+    hist["profile_histories"]["distinct_setters"] = len(used_setters)
+    hist["profile_histories"]["setters_in_table"] = len(members)
     wanted = ["%s/%s/%s" % (k, f, c) for k, cs in M.BUFFER_KINDS.items() for f in ("name", "units", "component") for c in cs]
     hist["buffer_matrix_cells_wanted"] = len(wanted)
     hist["buffer_matrix_cells_missing"] = [w for w in wanted if w not in hist["buffer_matrix"]]
@@ -1129,6 +1262,7 @@ def run(ctx):
 
     ctx.cov["evaluations"] = evaluations
     ctx.cov["distinct_nontrivial"] = len(nontrivial)
+    ctx.cov["externals_matrix"] = {"cells (type of the unmarked model / class marked external / how many) -> resulting analyser types": hist["externals_matrix"]}
     ctx.cov["buffer_matrix"] = {"cells (model type / field / class carrying the strictly longest string)": hist["buffer_matrix"],
                                 "missing": hist["buffer_matrix_cells_missing"]}
     ctx.cov["rule"] = ("one evaluation = one (valid model, profile) pair put through the structural parse, the string-exact comparison with the "
@@ -1149,7 +1283,7 @@ def replay(ctx, path):
     workdir = os.path.join(ctx.workdir, "replay")
     shutil.rmtree(workdir, ignore_errors=True)
     os.makedirs(workdir, exist_ok=True)
-    drv = _private_copy(vf.compile_driver(build, os.path.join(vf.ROOT, "harness/c17_driver.cpp")), workdir, "bin_c17_driver")
+    drv = _private_copy(build_driver(build)[0], workdir, "bin_c17_driver")
     mdl = _private_copy(vf.ocaml_driver("emit"), workdir, "bin_emit_model")
     if r.get("mode") == "guards":
         p = os.path.join(workdir, "case.cellml")
@@ -1159,7 +1293,8 @@ def replay(ctx, path):
             line = ("noprofile %s -" if r["case"] == "noprofile" else "model %s -") % p
         print("impl :", run_sharded([drv, "guards"], [line], workdir, "g", nsh=1)[0])
         return
-    model = {"name": re.sub(r"\W", "_", r.get("name", "replay")), "xml": r["cellml"], "externals": r.get("externals") or [], "meta": r.get("meta") or {}}
+    model = {"name": re.sub(r"\W", "_", r.get("name", "replay")), "xml": r["cellml"], "externals": r.get("externals") or [], "meta": r.get("meta") or {},
+             "history": r.get("history")}
     res = process(drv, mdl, [model], workdir, "replay")[0]
     print("driver :", res["line"][:1500])
     print("status :", res["status"])
